@@ -1,0 +1,84 @@
+//go:build verif
+
+package dhcp
+
+import (
+	"context"
+	"net"
+	"time"
+
+	"github.com/insomniacslk/dhcp/dhcpv4"
+)
+
+// Verification hooks (built only with -tags verif).  They expose the unexported
+// packet handler, the lease-cleanup routine and read-only snapshots of the lease
+// table and of a pool so that an external harness can drive the real slow path
+// without sockets and compare its state with a model.
+
+// HandleDHCPForVerif runs the slow-path packet handler exactly as server4 would.
+func (s *Server) HandleDHCPForVerif(conn net.PacketConn, peer net.Addr, pkt *dhcpv4.DHCPv4) {
+	s.handleDHCP(conn, peer, pkt)
+}
+
+// CleanupExpiredForVerif runs one pass of the expired-lease cleanup.
+func (s *Server) CleanupExpiredForVerif() {
+	s.cleanupExpiredLeases()
+}
+
+// RunLeaseCleanupForVerif runs the periodic (one minute) cleanup loop until ctx is done.
+func (s *Server) RunLeaseCleanupForVerif(ctx context.Context) {
+	s.leaseCleanup(ctx)
+}
+
+// LeaseForVerif is a read-only copy of the binding-relevant fields of a Lease.
+type LeaseForVerif struct {
+	Key       string // map key: MAC string (lease table) or hex circuit-id (circuit index)
+	MAC       net.HardwareAddr
+	IP        net.IP
+	ExpiresAt time.Time
+	CircuitID []byte
+}
+
+func leaseCopyForVerif(key string, l *Lease) LeaseForVerif {
+	return LeaseForVerif{
+		Key:       key,
+		MAC:       append(net.HardwareAddr(nil), l.MAC...),
+		IP:        append(net.IP(nil), l.IP...),
+		ExpiresAt: l.ExpiresAt,
+		CircuitID: append([]byte(nil), l.CircuitID...),
+	}
+}
+
+// LeasesForVerif returns copies of the MAC-keyed lease table and of the circuit-id index
+// (unordered: callers sort).
+func (s *Server) LeasesForVerif() (byMAC []LeaseForVerif, byCircuit []LeaseForVerif) {
+	s.leasesMu.RLock()
+	for k, l := range s.leases {
+		byMAC = append(byMAC, leaseCopyForVerif(k, l))
+	}
+	s.leasesMu.RUnlock()
+	s.leasesByCircuitIDMu.RLock()
+	for k, l := range s.leasesByCircuitID {
+		byCircuit = append(byCircuit, leaseCopyForVerif(k, l))
+	}
+	s.leasesByCircuitIDMu.RUnlock()
+	return byMAC, byCircuit
+}
+
+// SnapshotForVerif returns copies of the pool's allocation map, its free list (in order)
+// and the set of addresses marked unavailable.
+func (p *Pool) SnapshotForVerif() (allocated map[string]net.IP, available []net.IP, unavailable []string) {
+	p.mu.Lock()
+	defer p.mu.Unlock()
+	allocated = make(map[string]net.IP, len(p.allocated))
+	for k, v := range p.allocated {
+		allocated[k] = append(net.IP(nil), v...)
+	}
+	for _, v := range p.available {
+		available = append(available, append(net.IP(nil), v...))
+	}
+	for k := range p.unavailable {
+		unavailable = append(unavailable, k)
+	}
+	return allocated, available, unavailable
+}
